@@ -471,6 +471,12 @@ def _values(db, qt, u, rng, n, ints=True):
     return [rng.choice(pool) for _ in range(n)]
 
 
+def _small_int(y):
+    """int64 ndarrays are kept small: an int-dtype array times a table coefficient written as a Python int
+    (e.g. 31558150000000 for Ma) wraps around in int64 - reported finding `ndarray-int64-overflow`"""
+    return int(max(-1000.0, min(1000.0, y)))
+
+
 def _flat(kind, xs):
     if kind == "nd":
         return dict(k="nd", xs=[x for x in xs])
@@ -544,7 +550,7 @@ def _route_cases(ctx, kind, qt, c, u, v, rng, routes):
         if r == "db_convert":
             cq = rng.choice([qt] + ([c] if c else []))
             for val in (dict(k="num", x=x), dict(k="num", x=rng.choice((7, -2, 0, 12))), _flat("list", xs), _flat("tuple", xs),
-                        _flat("nd", [float(y) for y in xs] if rng.random() < 0.8 else [int(y) for y in xs])):
+                        _flat("nd", [float(y) for y in xs] if rng.random() < 0.8 else [_small_int(y) for y in xs])):
                 yield _case("db_convert", db=kind, cq=dict(k="str", c=cq), to_arg=dict(k="str", u=v), val=val, _nt=nt,
                             **{"from": dict(k="str", u=u)})
             continue
@@ -750,8 +756,8 @@ def cases(ctx):
     ctx.notes["streams"] = {}
     n0 = 0
     out = []
-    for name, gen in (("main_all_routes", _main_stream(ctx, "corr", 1 if quick else 3, False, None)),
-                      ("all_pairs_sampled_routes", iter(()) if quick else _main_stream(ctx, "pairs", 0, True, 2)),
+    for name, gen in (("main_all_routes", _main_stream(ctx, "corr", 3 if quick else 4, False, None)),
+                      ("all_pairs_sampled_routes", iter(()) if quick else _main_stream(ctx, "pairs", 0, True, 4)),
                       ("derived_empty", _derived_stream(ctx, "corr", 150 if quick else 1500)),
                       ("malformed", _malformed_stream(ctx, "corr", 400 if quick else 4000))):
         for c in gen:
@@ -1101,3 +1107,26 @@ def search(ctx):
     yield from _derived_stream(ctx, "search", 300)
     if not quick:
         yield from _main_stream(ctx, "search2", 0, True, 3)
+
+
+# ----------------------------------------------------------------------------------------- reported finding
+FINDING_INT64 = dict(op="db_convert", _t=dict(db="posc", cq=dict(k="str", c="time"), to_arg=dict(k="str", u="d"),
+                                              val=dict(k="nd", xs=[7, -7817731]), _nt=True, **{"from": dict(k="str", u="Ma")}))
+
+
+def _is_big_int_array(case):
+    v = case.get("_t", {}).get("val") or {}
+    xs = v.get("xs") or []
+    return v.get("k") == "nd" and bool(xs) and all(isinstance(x, int) for x in xs) and max(abs(x) for x in xs) > 1000
+
+
+def matches_known(entry, case, failure):
+    """known-finding matcher: input class = an int-dtype ndarray holding a value beyond +-1000 (int64 wrap-around
+    of `coefficient * array` for table coefficients written as Python ints)"""
+    return entry.get("id") == "C02-ndarray-int64-overflow" and _is_big_int_array(case)
+
+
+def replay_finding(entry, ctx):
+    if entry.get("id") == "C02-ndarray-int64-overflow":
+        return oracle(FINDING_INT64, ctx)
+    return None
